@@ -18,6 +18,8 @@ type Spec struct {
 	Impl     bool // include plain @implements cases (IMPL01..03) so that every code occurs
 	NoFreeT  bool // avoid TONL-FREE mentions of @testonly types (keeps once-per-file groups determinate)
 	MinimalAnn int // 0: random annotation mixes; 1: every type carries every annotation (all-codes programs)
+	Typed       bool // unused (typed-variable templates are always part of the template set)
+	ExclHeaders bool // pool-token files carry a file-level "@ignore ALL" (inert while the file is excluded)
 }
 
 // PoolTokens: exclude-paths tokens that occur in generated file names.
@@ -353,6 +355,9 @@ func Build(spec Spec) *Built {
 		}
 		if spec.Excluded {
 			fex = b.NewFile(u, PoolTokens[ui%len(PoolTokens)]+"_x.go")
+			if spec.ExclHeaders && ui != 1 {
+				fex.AddHeaderIgnore(p, "ALL")
+			}
 		}
 		if ui == 2 {
 			fa.Rename["m/d0"] = "dzero" // renamed import
